@@ -46,13 +46,15 @@ def cache_pressure(c, upto):
     return False
 
 
-PROJ = {'C06': ('lin', 'final', 'reopen'), 'C07': ('progress', 'spurious-err'), 'C18': ('flag',)}
+PROJ = {'C06': ('lin', 'final', 'reopen'), 'C07': ('progress', 'spurious-err'), 'C18': ('flag',), 'C03': ('valid',)}
 
 
-def run_conc(prop, tier, seed, replay, extra=None):
+def run_conc(prop, tier, seed, replay, extra=None, gate0=None):
     t = qv.Timer()
     rng = qv.Rng(seed)
     gate = {'ok': True, 'obligations': 0, 'discharged': 0, 'failed': None, 'axioms': [], 'checker_cmd': '', 'gen': {}}
+    if gate0 is not None:
+        gate = gate0
     if prop == 'C06':
         gate = common.proof_gate('C06', ['Model/Cache.v', 'Proofs/CacheProps.v', 'Props/C06.v'])
     rc, out = qv.harness_build()
@@ -113,6 +115,17 @@ def run_conc(prop, tier, seed, replay, extra=None):
                     p = os.path.join(d, '%s.q%d.img' % (c['cid'], bi))
                     if os.path.exists(p):
                         snaps.append((c, bi, p))
+    if prop == 'C03':
+        # the file after the closing flush_meta of every concurrent case must be valid under the extracted checker
+        ends = [(c, os.path.join(d, '%s.end.img' % c['cid'])) for c in cases]
+        ends = [(c, p) for c, p in ends if os.path.exists(p)]
+        vd = qv.qdrv_check([p for _, p in ends], d)
+        for c, p in ends:
+            stats['flushed_files_checked'] += 1
+            v = vd.get(p, {})
+            if v.get('valid') != '1':
+                finds.append(('valid', c, 'after the concurrent batches and a successful flush_meta the file is not valid: leaked=%s under=%s over=%s tables=%s' % (
+                    v.get('leaked'), v.get('under'), v.get('over'), v.get('tables_strict')), len(c['batches']), ''))
     if prop == 'C18' and snaps:
         # need_flush_meta() == false: the file alone must give the same content and be valid
         texts = []
